@@ -205,11 +205,25 @@ def sat_src(design, impl_design, seqs_text, strands_text):
         for i, j in bonds(dp):
             if flat[i] not in COMP or flat[i] != COMP.get(flat[j]):
                 problems.append("structure %s: target pair (%d,%d) is %s-%s" % (name, i, j, flat[i], flat[j]))
+    # ports bound to one signal agree — through any depth of nesting: signal connectors themselves are not saved
+    # objects, so propagate the equalities (with orientation) and compare every pair of VALUED nucleotides of a class
+    from semantics import UF
+    uf = UF()
     for e in design["equals"]:
-        vals = [ev(reg) for reg in e[1:]]   # e[0] is the signal itself (not a saved sequence)
-        vals = [v for v in vals if v is not None]
-        if len(set(vals)) > 1:
-            problems.append("ports bound to one signal disagree: %r" % vals)
+        regs = [[parse_nuc(x) for x in reg] for reg in e]
+        for reg in regs[1:]:
+            for (va, ca), (vb, cb) in zip(regs[0], reg):
+                uf.union(va, vb, (1 if ca else 0) ^ (1 if cb else 0))
+    seen = {}
+    for v in list(uf.p):
+        if v not in val:
+            continue
+        r, par = uf.find(v)
+        base = COMPX[val[v]] if par else val[v]
+        if r in seen and seen[r][1] != base:
+            problems.append("ports bound to one signal disagree: %s:%d and %s:%d" % (seen[r][0][0], seen[r][0][1], v[0], v[1]))
+            break
+        seen.setdefault(r, (v, base))
     # the strands-to-order file lists exactly the non-dummy strands
     listed = []
     for line in strands_text.split("\n"):
